@@ -484,9 +484,9 @@ def make_timer_driver(name):
 # ================================================================================================
 def body(ctx):
     quick = ctx.tier == "quick"
-    plans = [("delays", DelayDriver, 5 if quick else 6),
+    plans = [("delays", DelayDriver, 5 if quick else 7),
              ("periodic", PeriodicDriver, 7 if quick else 10),
-             ("timer_tu", make_timer_driver("tu"), 5 if quick else 7),
+             ("timer_tu", make_timer_driver("tu"), 5 if quick else 6),
              ("timer_td", make_timer_driver("td"), 4 if quick else 6),
              ("timer_tr", make_timer_driver("tr"), 4 if quick else 6)]
     states = trans = 0
